@@ -86,3 +86,115 @@ func (n *vSimpleNode) Post(ctx context.Context, s *SharedStore, p, e any) (Actio
 	n.visits++
 	return n.act, nil
 }
+
+// ---- a catalogue of dynamic types for "a value of any Go type" ----
+
+type vMyInt int
+type vMyStr string
+type vMyBool bool
+type vMyFloat float64
+type vNamedSlice []any
+type vStructCmp struct{ A int }
+type vStructNonCmp struct{ A []int }
+type vStructFloat struct{ F float64 }
+
+type vInfo struct {
+	isSlice bool // reflect kind is Slice
+	n       int  // its length
+	numeric int  // 0 no; 1..12 the documented numeric source types
+	isStr   bool
+	isBool  bool
+	isMap   bool // exactly map[string]any
+}
+
+const vCatalogueSize = 41
+
+// vAnyOf returns a value whose dynamic type is chosen (by forking) from the catalogue; scalar
+// contents are symbolic. The info says what the *documentation* promises about it.
+func vAnyOf(label string) (any, vInfo) {
+	switch vChoice(label+".type", vCatalogueSize) {
+	case 0:
+		return nil, vInfo{}
+	case 1:
+		return vNondet[int](label + ".v"), vInfo{numeric: 1}
+	case 2:
+		return vNondet[int8](label + ".v"), vInfo{numeric: 2}
+	case 3:
+		return vNondet[int16](label + ".v"), vInfo{numeric: 3}
+	case 4:
+		return vNondet[int32](label + ".v"), vInfo{numeric: 4}
+	case 5:
+		return vNondet[int64](label + ".v"), vInfo{numeric: 5}
+	case 6:
+		return vNondet[uint](label + ".v"), vInfo{numeric: 6}
+	case 7:
+		return vNondet[uint8](label + ".v"), vInfo{numeric: 7}
+	case 8:
+		return vNondet[uint16](label + ".v"), vInfo{numeric: 8}
+	case 9:
+		return vNondet[uint32](label + ".v"), vInfo{numeric: 9}
+	case 10:
+		return vNondet[uint64](label + ".v"), vInfo{numeric: 10}
+	case 11:
+		return vNondet[float32](label + ".v"), vInfo{numeric: 11}
+	case 12:
+		return vNondet[float64](label + ".v"), vInfo{numeric: 12}
+	case 13:
+		return vNondet[string](label + ".v"), vInfo{isStr: true}
+	case 14:
+		return vNondet[bool](label + ".v"), vInfo{isBool: true}
+	case 15:
+		return map[string]any{"a": vNondet[int](label + ".v")}, vInfo{isMap: true}
+	case 16:
+		return []any{}, vInfo{isSlice: true}
+	case 17:
+		return []any{vNondet[int](label + ".v")}, vInfo{isSlice: true, n: 1}
+	case 18:
+		return []any{vNondet[int](label + ".v"), "x"}, vInfo{isSlice: true, n: 2}
+	case 19:
+		return []string{vNondet[string](label + ".v"), "y"}, vInfo{isSlice: true, n: 2}
+	case 20:
+		return []int{vNondet[int](label + ".v")}, vInfo{isSlice: true, n: 1}
+	case 21:
+		return []float64{vNondet[float64](label + ".v"), 1.5}, vInfo{isSlice: true, n: 2}
+	case 22:
+		return []map[string]any{{"k": 1}}, vInfo{isSlice: true, n: 1}
+	case 23:
+		return []int8{vNondet[int8](label + ".v"), 2, 3}, vInfo{isSlice: true, n: 3} // reflection path
+	case 24:
+		return vNamedSlice{vNamedSlice{}}, vInfo{isSlice: true, n: 1} // named slice holding a slice
+	case 25:
+		return []Result{NewResult(1)}, vInfo{isSlice: true, n: 1}
+	case 26:
+		return []int(nil), vInfo{isSlice: true} // typed nil slice
+	case 27:
+		return map[string]int{"a": 1}, vInfo{} // a map, but not map[string]any; not comparable
+	case 28:
+		return func() {}, vInfo{} // not comparable
+	case 29:
+		return vStructNonCmp{A: []int{1}}, vInfo{} // struct containing a slice: not comparable
+	case 30:
+		return vStructCmp{A: vNondet[int](label + ".v")}, vInfo{}
+	case 31:
+		return vStructFloat{F: vNondet[float64](label + ".v")}, vInfo{} // comparable, x != x when NaN
+	case 32:
+		return vMyInt(vNondet[int](label + ".v")), vInfo{} // named numeric: not a documented source type
+	case 33:
+		return vMyStr(vNondet[string](label + ".v")), vInfo{}
+	case 34:
+		return vMyBool(vNondet[bool](label + ".v")), vInfo{}
+	case 35:
+		return (*int)(nil), vInfo{} // typed nil pointer
+	case 36:
+		x := vNondet[int](label + ".v")
+		return &x, vInfo{}
+	case 37:
+		return make(chan int), vInfo{}
+	case 38:
+		return [1]int{vNondet[int](label + ".v")}, vInfo{}
+	case 39:
+		return [1][]int{{1}}, vInfo{} // array of slices: not comparable
+	default:
+		return vNondet[uintptr](label + ".v"), vInfo{}
+	}
+}
